@@ -127,6 +127,14 @@ def regenerate_mut():
     return out.strip() if rc == 3 else None
 
 
+def regenerate_drv():
+    """tools/gen_drv.py: the driver's decisions (generate_internal, cleanup_for_stop) -> coq/gen/SrcDrv.v; None, or what could not be translated"""
+    rc, out = sh([sys.executable, os.path.join(VERIF, 'tools', 'gen_drv.py'), REPO, os.path.join(COQ, 'gen')])
+    if rc not in (0, 3):
+        raise Infra('gen_drv crashed:\n' + out)
+    return out.strip() if rc == 3 else None
+
+
 def coq_make(target=None, timeout=1500):
     if not os.path.exists(os.path.join(COQ, 'Makefile')):
         sh('coq_makefile -f _CoqProject -o Makefile', cwd=COQ, check=True)
